@@ -570,6 +570,6 @@ def shard(ctx):
     run_sub(ctx, "hashseed", hashseed_spec(), lambda s: case_hashseed(ctx, s), ctx.n(32, 400))
     run_sub(ctx, "benchmark", benchmark_spec(), lambda s: case_benchmark(ctx, s), ctx.n(160, 2000))
     run_sub(ctx, "twodata", twodata_spec(), lambda s: case_twodata(ctx, s), ctx.n(48, 600))
-    run_sub(ctx, "value_frames", value_frames_spec(), lambda s: case_value_frames(ctx, s), ctx.n(320, 4000))
-    run_sub(ctx, "dynamic", dynamic_spec(), lambda s: case_dynamic(ctx, s), ctx.n(320, 4000))
-    run_sub(ctx, "hashseed_limitdeltas", hashseed_limitdeltas_spec(), lambda s: case_hashseed(ctx, s), ctx.n(48, 600))
+    run_sub(ctx, "value_frames", value_frames_spec(), lambda s: case_value_frames(ctx, s), ctx.n(240, 4000))
+    run_sub(ctx, "dynamic", dynamic_spec(), lambda s: case_dynamic(ctx, s), ctx.n(240, 4000))
+    run_sub(ctx, "hashseed_limitdeltas", hashseed_limitdeltas_spec(), lambda s: case_hashseed(ctx, s), ctx.n(32, 600))
